@@ -380,12 +380,30 @@ def run_native(repo, nhs, logpath):
     res = {}
     for m in re.finditer(r'^test (\S+) \.\.\. (ok|FAILED)', out, re.M):
         res[m.group(1).split('::')[-1]] = m.group(2)
+    # a stack overflow / abort kills the whole test binary: isolate the tests that did not report
+    missing = [h for h in nhs if h.name not in res]
+    if missing and re.search(r'overflowed its stack|signal: \d+|SIGABRT|SIGSEGV', out):
+        for h in missing:
+            c1 = ['cargo', 'test', '--offline', '--lib', h.name, '--', '--exact', '--test-threads', '1']
+            c1[4] = h.fq
+            try:
+                o1 = subprocess.run(c1, cwd=repo, env=env, stdout=subprocess.PIPE, stderr=subprocess.STDOUT, text=True, timeout=1500).stdout
+            except subprocess.TimeoutExpired:
+                o1 = 'timed out'
+            m1 = re.search(r'^test \S+ \.\.\. (ok|FAILED)', o1, re.M)
+            if m1:
+                res[h.name] = m1.group(1)
+                out += '\n' + o1
+            elif re.search(r'overflowed its stack|signal: \d+|SIGABRT|SIGSEGV', o1):
+                res[h.name] = 'FAILED'
+                tail = '\n'.join(l for l in o1.split('\n') if 'overflow' in l or 'signal' in l or 'SIG' in l)[:600]
+                out += f'\n---- {h.fq} stdout ----\n{h.id}: the test process died: {tail}\n\nfailures:\n'
     return res, 'RUSTFLAGS="--cfg verif_native" ' + ' '.join(cmd), out
 
 
 def native_failure_excerpt(out, name):
-    m = re.search(r'---- \S*' + re.escape(name) + r' stdout ----\n(.*?)(?=\n---- |\nfailures:)', out, re.S)
-    return (m.group(1).strip() if m else 'test failed')
+    ms = re.findall(r'---- \S*' + re.escape(name) + r' stdout ----\n(.*?)(?=\n---- |\nfailures:)', out, re.S)
+    return (ms[-1].strip() if ms else 'test failed')
 
 
 # ------------------------------------------------------------------ main
